@@ -4,14 +4,27 @@ TECHNIQUE = "CBMC bounded symbolic execution of http.c response parsing leafs vs
 UNITS = ["http.c", "http-internal.h", "evutil.c"]
 FUNCTIONS = ["evhttp_parse_firstline_", "evhttp_parse_response_line", "evhttp_parse_http_version", "evhttp_valid_response_code",
              "evhttp_response_needs_body", "evhttp_get_body", "evhttp_get_body_length", "evhttp_find_header"]
-BOUNDS = "work in progress"
-OUT = "work in progress"
-TEXT = "work in progress"
-NOTE = ""
-ASSUMPTIONS = []
+BOUNDS = 'status line <=16 symbolic bytes (thorough 20, NUL included); response framing: 8 (thorough 15) enumerated shapes of <=2 (3) header fields with symbolic values <=8 (10) bytes, status code in {200,204,304,404,407,101,299,500}, request method in {GET,HEAD,CONNECT,POST}; segmentation of the status line: C23 obligation segment_firstline (response kind)'
+OUT = 'connection reuse and leftover bytes across responses (unit step only; body byte accounting is C25 body_cl: bytes behind the body stay in the input buffer); 100-continue restart; peer close at any byte (evhttp_error_cb, C27); header section parsing is shared with the server side (C23 headers)'
+TEXT = 'Client-side leafs of http.c on symbolic input against RFC 9112 reference recognisers: status line (version, 3DIGIT code, reason phrase) through evhttp_parse_firstline_/evhttp_parse_response_line; body framing decision through the real evhttp_read_header -> evhttp_response_needs_body -> evhttp_get_body (HEAD/1xx/204/304/2xx-CONNECT without body, Transfer-Encoding, Content-Length, close-delimited).'
+NOTE = 'Trusted as for C23. One open known finding (KF-C24-keepalive-no-length: no length + Connection not close => body taken as empty, deliberate heuristic). 3 defects with fix proposals (fixes/C24-*.diff).'
+ASSUMPTIONS = ['evbuffer_readln contract model env/http_lines.h', 'field values arrive OWS-trimmed, free of CR/LF/NUL (C23 obligation headers)', 'continuations of evhttp_read_header/evhttp_get_body are recorders (evhttp_connection_done, evhttp_connection_fail_, evhttp_read_body, evhttp_start_write_, ...)']
 DESIGN_REF = "DESIGN.md §5 C24"
 
+def _with_token_set(obs):
+    # evhttp_add_header checks names against the 77-character token alphabet (strspn): the membership loop of the
+    # strspn/strpbrk model needs up to 78 rounds on that constant set
+    for o in obs:
+        us = list(o.get("unwindset", []))
+        if not any(u.startswith("vp_in_set.0:") for u in us):
+            us.append("vp_in_set.0:80")
+        o["unwindset"] = us
+    return obs
+
 def obligations(tier):
+    return _with_token_set(_obligations(tier))
+
+def _obligations(tier):
     n = 16 if tier == "quick" else 20
     obs = [dict(name="statusline", harness="C24_statusline.c", entry="harness_statusline", defines=["VP_N=%d" % n], unwind=n + 3,
                 timeout=600, mem_gb=6, desc="status line <= %d symbolic bytes (NUL included) vs RFC 9112 4 reference" % n)]
